@@ -32,7 +32,8 @@ fn mname(m: Method) -> &'static str {
 }
 
 fn case(prefix: &str, regs: &[(usize, usize)], t: &mut crate::par::Tally) {
-    let server_id = "router-id";
+    // the configured identity varies with the case (incl. the empty one and one with a space)
+    let server_id = ["router-id", "", "srv 2"][(regs.len() + regs.iter().map(|(m, p)| m + p).sum::<usize>()) % 3];
     let mut router: HttpRoutes<Log> = HttpRoutes::new(server_id.to_string(), prefix.to_string());
     let mut reference: BTreeMap<(usize, String), usize> = BTreeMap::new();
     for (i, (m, p)) in regs.iter().enumerate() {
@@ -91,7 +92,7 @@ fn case(prefix: &str, regs: &[(usize, usize)], t: &mut crate::par::Tally) {
                 match read_one(&b) {
                     ReadResult::Complete(p) => {
                         let code_ok = if want_calls.is_empty() { p.code == 404 } else { p.code == 200 && p.body == format!("h{}", want_calls[0]).into_bytes() };
-                        if !code_ok || p.header("Server") != Some(server_id) || p.header("Content-Type") != Some("application/json") {
+                        if !code_ok || p.header("Server").map(|x| x.trim()) != Some(server_id.trim()) || p.header("Content-Type") != Some("application/json") {
                             t.violate("stamp", format!("response for {} {}: code {} Server {:?} Content-Type {:?} body {:?}", mname(*m), uri, p.code, p.header("Server"), p.header("Content-Type"), util::show(&p.body)), json!({"engine": "c17", "prefix": prefix, "regs": regs}));
                         }
                     }
